@@ -27,7 +27,7 @@ if [ -n "$demo" ]; then
   case "$demo" in
   *.go)
     cp "$demo" $mut/zz_demo_test.go; cp "$demo" $clean/zz_demo_test.go
-    flags=""; grep -q -i 'race' $SRC/README.md 2>/dev/null && [ "$P" = C12 -o "$P" = C06 ] && flags="-race"
+    flags=""; grep -q -i 'race' $SRC/README.md 2>/dev/null && [ "$P" = C12 -o "$P" = C06 -o "$P" = C17 ] && flags="-race"
     (cd $mut && timeout 300 go test $flags -vet=off -count=1 -run "TestDemoM$I" . > $work/demo_mut.out 2>&1) && demo_mut=PASS || demo_mut=FAIL
     (cd $clean && timeout 300 go test $flags -vet=off -count=1 -run "TestDemoM$I" . > $work/demo_clean.out 2>&1) && demo_clean=PASS || demo_clean=FAIL
     rm -f $mut/zz_demo_test.go $clean/zz_demo_test.go ;;
